@@ -113,6 +113,7 @@ func Load(cfg LoadCfg) (*Prog, error) {
 		// mutant loads replace each other: drop descriptions of dead programs
 		descCache = map[ssa.Value]string{}
 		helperIdx = map[*ssa.Function]*helperInfo{}
+		aliasOld = map[*ssa.Function]string{}
 	}
 	fset := token.NewFileSet()
 	pcfg := &packages.Config{
@@ -229,6 +230,9 @@ func (p *Prog) Func(pkg, recv, name string) *ssa.Function {
 				break
 			}
 		}
+	}
+	if fn == nil {
+		fn = aliasLookup(pkgPath(pkg), recv, base) // the anchor was renamed (inline.go)
 	}
 	if fn == nil || anon == "" {
 		return fn
@@ -348,6 +352,9 @@ func (p *Prog) FuncDecl(pkg, recv, name string) (*ast.FuncDecl, *packages.Packag
 			}
 		}
 	}
+	if f := aliasLookup(pkgPath(pkg), recv, name); f != nil && f.Name() != name {
+		return p.FuncDecl(pkg, recv, f.Name()) // the anchor was renamed (inline.go)
+	}
 	return nil, nil
 }
 
@@ -370,5 +377,5 @@ func fnName(f *ssa.Function) string {
 		return "<nil>"
 	}
 	s := f.String()
-	return strings.ReplaceAll(s, modPath+"/", "")
+	return aliasString(f, strings.ReplaceAll(s, modPath+"/", ""))
 }
